@@ -52,6 +52,8 @@ pub enum Gap {
     /// like `Ms(total)`, with a `send_request` into an 8-byte buffer (refused, no request comes into being) `at` ms after
     /// this request's send instant: a call that is not a request and must not count as one for the staleness rule
     FailedSend { at: u64, total: u64 },
+    /// next request this many NANOSECONDS after this request's send instant (gaps that are not whole milliseconds)
+    Ns(u64),
 }
 
 /// Double-precision RFC 6298 (alpha 1/8, beta 1/4, K 4, RTTVAR before SRTT, max(G, 4*RTTVAR), no rounding)
@@ -201,6 +203,13 @@ pub fn run_chain(cfg: &Cfg, apps: &Arc<Vec<Vec<L>>>, chain: &[(Delay, Gap)], rep
             if bad {
                 break;
             }
+            if let Gap::Ns(ns) = gap {
+                let t = t0 + ns;
+                if t > run.w.now {
+                    explore::step(&mut run, &Event::AdvanceTo(t), None);
+                    steps += 1;
+                }
+            }
             if let Gap::Ms(ms) | Gap::FailedSend { total: ms, .. } = gap {
                 let t = t0 + 2 * MS + ms * MS;
                 if t > run.w.now {
@@ -295,6 +304,14 @@ pub fn run_chain(cfg: &Cfg, apps: &Arc<Vec<Vec<L>>>, chain: &[(Delay, Gap)], rep
                     steps += 1;
                 }
             }
+            Gap::Ns(ns) => {
+                let t = t0 + ns;
+                if t > run.w.now {
+                    explore::step(&mut run, &Event::AdvanceTo(t), None);
+                    steps += 1;
+                    rep.sym("gap-within-a-millisecond-of-600s");
+                }
+            }
             Gap::Ms(ms) => {
                 let t = t0 + ms * MS;
                 if t > run.w.now {
@@ -383,6 +400,28 @@ pub fn run(ctx: &RunCtx) -> i32 {
             shared.merge(r);
         });
     }
+    // gaps that are not whole milliseconds, within a millisecond of the ten-minute limit ("more than 600 s" is decided on the
+    // instants as given, not on a rounded difference): every chain of 3 over 2 behaviours x 6 gaps
+    {
+        const TEN_MIN_NS: u64 = 600_000 * MS;
+        let sm_gaps = [Gap::Immediately, Gap::Ns(TEN_MIN_NS - 1), Gap::Ns(TEN_MIN_NS + 1), Gap::Ns(TEN_MIN_NS + 500_000), Gap::Ns(TEN_MIN_NS + 999_999), Gap::Ms(600_001)];
+        let sm: Vec<(Delay, Gap)> = [Delay::Ms(7), Delay::Ms(100)].iter().flat_map(|d| sm_gaps.iter().map(move |g| (*d, *g))).collect();
+        let n = (sm.len() as u64).pow(3);
+        (0..cfgs.len() as u64 * n).into_par_iter().for_each(|job| {
+            let mut r = Report::new();
+            let ci = (job / n) as usize;
+            let mut k = job % n;
+            let mut chain = vec![];
+            for _ in 0..3 {
+                chain.push(sm[(k % sm.len() as u64) as usize]);
+                k /= sm.len() as u64;
+            }
+            let res = run_chain(&cfgs[ci], &apps, &chain, 0, &mut r);
+            r.transitions += res.steps;
+            r.states += res.steps;
+            shared.merge(r);
+        });
+    }
     let pd = [Delay::Ms(1), Delay::Ms(7), Delay::Ms(100), Delay::JustBeforeRto, Delay::AfterRetransmissions(1), Delay::AfterRetransmissions(2)];
     // (configuration, family, index): family 0 = full menu, 1 = reduced menu, 2..=4 = periodic with period 1..=3
     let n_full = (full.len() as u64).pow(full_len as u32);
@@ -437,9 +476,9 @@ pub fn run(ctx: &RunCtx) -> i32 {
         rep,
         Finish {
             level: "model_checking",
-            rule: format!("for RTO {{100, 500, 3000}} ms x granularity {{1, 10, 1000}} ms without credentials, and RTO 500 ms with short-term credentials (answers carry a valid MESSAGE-INTEGRITY) and long-term credentials (every answer is a 401 challenge with a fresh nonce, i.e. a Retry outcome): every chain of {} transactions over 11 response behaviours (1 / 7 / 100 ms, 1 ms before the first retransmission, after one / two retransmissions, never answered, an error response, an early timer call followed by the answer, two overlapping requests answered in either order) x 6 gaps (immediately, 1 s, 599.999 s, 600 s, 600.001 s, 1200 s between consecutive request instants), every chain of {} transactions over a reduced 4 x 3 menu, every chain of 3 transactions over 3 behaviours x 6 gaps of which three contain a send_request refused for lack of buffer space in the middle of the pause (it is not a request and must not refresh the staleness clock), and every periodic chain of period <= 3 over 6 response behaviours repeated to 300 transactions ({} chains in total), executed on the real client. After every send the interval recorded for the transaction (H1), the estimator value (H1) and the announced duration are compared with a double-precision RFC 6298 reference (first sample SRTT=R, RTTVAR=R/2; later RTTVAR before SRTT; RTO=SRTT+max(G,4*RTTVAR); sample iff completed without retransmission; reset iff more than 600 s since the previous request) within 1e-5 relative + 1 microsecond", full_len, red_len, n_jobs),
+            rule: format!("for RTO {{100, 500, 3000}} ms x granularity {{1, 10, 1000}} ms without credentials, and RTO 500 ms with short-term credentials (answers carry a valid MESSAGE-INTEGRITY) and long-term credentials (every answer is a 401 challenge with a fresh nonce, i.e. a Retry outcome): every chain of {} transactions over 11 response behaviours (1 / 7 / 100 ms, 1 ms before the first retransmission, after one / two retransmissions, never answered, an error response, an early timer call followed by the answer, two overlapping requests answered in either order) x 6 gaps (immediately, 1 s, 599.999 s, 600 s, 600.001 s, 1200 s between consecutive request instants), every chain of {} transactions over a reduced 4 x 3 menu, every chain of 3 transactions over 3 behaviours x 6 gaps of which three contain a send_request refused for lack of buffer space in the middle of the pause (it is not a request and must not refresh the staleness clock), every chain of 3 transactions over 2 behaviours x 6 gaps within a millisecond of the ten-minute limit (600 s - 1 ns, + 1 ns, + 0.5 ms, + 0.999999 ms, + 1 ms), and every periodic chain of period <= 3 over 6 response behaviours repeated to 300 transactions ({} chains in total), executed on the real client. After every send the interval recorded for the transaction (H1), the estimator value (H1) and the announced duration are compared with a double-precision RFC 6298 reference (first sample SRTT=R, RTTVAR=R/2; later RTTVAR before SRTT; RTO=SRTT+max(G,4*RTTVAR); sample iff completed without retransmission; reset iff more than 600 s since the previous request) within 1e-5 relative + 1 microsecond", full_len, red_len, n_jobs),
             assumptions: vec!["zero-length response times are excluded as the statement says".into(), "verdicts are taken after every send, so chains of the maximal length cover all shorter ones".into()],
-            required_symbols: vec!["sampled", "not-sampled-after-retransmission", "not-sampled-timed-out", "gap-beyond-600s", "gap-exactly-600s", "periodic-300", "sampled-overlapping", "error-response-sampled", "early-timer-then-answer", "failed-send-inside-a-pause"],
+            required_symbols: vec!["sampled", "not-sampled-after-retransmission", "not-sampled-timed-out", "gap-beyond-600s", "gap-exactly-600s", "periodic-300", "sampled-overlapping", "error-response-sampled", "early-timer-then-answer", "failed-send-inside-a-pause", "gap-within-a-millisecond-of-600s"],
             min_outcomes: 2,
             exhaustive: true,
             bounds: json!({"full_menu_len": full_len, "reduced_menu_len": red_len, "periodic_to": 300}),
